@@ -32,6 +32,10 @@ CHECK_DEADLOCK FALSE
     return core.run_tlc("RaireMC", cfg, workers=workers, timeout=3400, heap="8g", coverage=True)
 
 
+class NoAssertionInResult(Exception):
+    """the returned list holds something that is not an assertion"""
+
+
 def run_search(tid, cands, profile, winner, fn, hint, total=None):
     from shangrla.raire.raire import compute_raire_assertions
     from shangrla.raire.raire_utils import Contest as RC, NEBAssertion, NENAssertion
@@ -52,6 +56,8 @@ def run_search(tid, cands, profile, winner, fn, hint, total=None):
             warnings.simplefilter("ignore")
             res = core.with_time_limit(5, compute_raire_assertions, contest, cvrs, winner, f, False)
         out = []
+        if any(a is None for a in res):
+            raise NoAssertionInResult(f"result {res!r}")
         for a in res:
             kind = "NEB" if isinstance(a, NEBAssertion) else "NEN"
             out.append({"kind": kind, "w": a.winner, "l": a.loser,
@@ -154,8 +160,10 @@ def vote_records(cands):
     return recs
 
 
-def reader_records(rng, n):
-    """RAIRE-format files (1-2 contests, repeated ballot ids, rankings of every length) through both readers"""
+def reader_records(rng, n, repeats=False):
+    """RAIRE-format files (1-2 contests, repeated ballot ids, rankings of every length) through both readers;
+    repeats: a row may list a candidate twice (C18 only: its rank is then one of its listing positions, the ranks
+    of the candidates listed once are their positions)"""
     from shangrla.core.Audit import CVR
     from shangrla.raire.raire_utils import load_contests_from_raire
     recs = []
@@ -174,6 +182,8 @@ def reader_records(rng, n):
                 if ncon == 1 or rng.random() < 0.7:
                     L = rng.randint(0, len(cands))          # a row may rank nobody
                     prefs = rng.sample(cands, L)
+                    if repeats and L >= 1 and rng.random() < 0.3:
+                        prefs.insert(rng.randint(0, L), rng.choice(prefs))
                     rows.append({"cid": cid, "bid": bid, "prefs": prefs})
         if not rows:
             continue
@@ -263,6 +273,17 @@ def run(pid, tier):
             w = rng.choice(cands3)
             recs.append(run_search(f"s{k}", cands3, prof, w, rng.choice(["cp", "bp"]), None))
             k += 1
+    # two candidates (the smallest contest the statement covers): every multiset of up to 4 partial rankings,
+    # each reported winner, both difficulty functions
+    if pid in ("C04", "C15"):
+        for cands2 in (["A", "B"], ["1", "12"]):
+            ranks2 = all_rankings(cands2)
+            for n2 in range(1, 5):
+                for prof in itertools.combinations_with_replacement(ranks2, n2):
+                    for w in cands2:
+                        for fn in ("cp", "bp"):
+                            recs.append(run_search(f"two{k}", cands2, [list(b) for b in prof], w, fn, None))
+                            k += 1
     # beyond the exhaustive bound: 4 and 5 candidates, larger profiles (the specification still decides each case)
     nbig = ({"C04": 2000, "C15": 1500, "C14": 150}[pid] if tier == "quick" else 8000)
     ranks_by = {}
